@@ -907,7 +907,7 @@ func c05Buckets(r *Report, rule string) {
 	// the content of the protected bstr is an item of its own: every mode
 	// call on it (in the decoder or in a helper that receives it) uses a mode
 	// that does not forbid tags (tags are only excluded from the envelope)
-	if rule == "R07.5" { // an acceptance rule: C07 only
+	if rule == "R07.5" || rule == "R13.2" { // an acceptance rule: C07, and C13 (the encoder admits tagged values in this bucket: so must the decoder)
 		tagsOK := map[string]bool{}
 		for _, mc := range P.modeConfigs() {
 			if !mc.enc && mc.global != "" && mc.opts["TagsMd"] == 0 && len(mc.unknown) == 0 {
